@@ -194,6 +194,10 @@ func (c *checkCtx) check() int {
 		fmt.Fprintf(os.Stderr, "gcsim: HARNESS: expected %d results, have %d\n", total, len(bt.Results))
 		return 2
 	}
+	if msg := corpusStable(bt.Procs); msg != "" {
+		fmt.Fprintln(os.Stderr, "gcsim: HARNESS:", msg)
+		return 2
+	}
 	if c.ID == "C02" {
 		// cross-process leg with the shipped binary as real processes
 		if err := buildFrontends(c.Build); err != nil {
@@ -253,7 +257,7 @@ func (c *checkCtx) check() int {
 			fmt.Fprintln(os.Stderr, "gcsim: build trouble:", err)
 			return 2
 		}
-		n := 76
+		n := 80
 		if c.Tier == "thorough" {
 			n = 1200
 		}
@@ -353,6 +357,28 @@ type report struct {
 	Path      string
 }
 
+// corpusStable checks that every worker process saw the same corpus on disk: run indices
+// are drawn against the corpus index, so a package added or edited while a check is
+// running makes the same index mean different runs in different processes.
+func corpusStable(procs []map[string]any) string {
+	first := ""
+	for _, p := range procs {
+		d, _ := p["corpus_digest"].(string)
+		if d == "" {
+			continue
+		}
+		if strings.HasSuffix(d, "+changed-while-running") {
+			return "the corpus (checkers/testdata, /verif/sim/corpus, ...) changed on disk while a worker was running; run the check again on a quiet tree"
+		}
+		if first == "" {
+			first = d
+		} else if d != first {
+			return "worker processes of this check saw different corpora on disk (a file was added or edited while the check was running); run the check again on a quiet tree"
+		}
+	}
+	return ""
+}
+
 type xprocResult struct {
 	harness   string
 	compared  int
@@ -435,9 +461,21 @@ func (c *checkCtx) crossProcess(bt *batch) *xprocResult {
 			}(g, part, mine)
 		}
 	}
+	var xprocs []map[string]any
+	if len(bt.Procs) > 0 {
+		xprocs = append(xprocs, bt.Procs[0])
+	}
+	defer func() {
+		if msg := corpusStable(xprocs); msg != "" {
+			xr.harness = msg
+		}
+	}()
 	for k := 0; k < launched; k++ {
 		r := <-ch
 		xr.processes++
+		if r.wo.Proc != nil {
+			xprocs = append(xprocs, r.wo.Proc)
+		}
 		if !r.wo.Finished {
 			xr.harness = fmt.Sprintf("cross-process worker (GOMAXPROCS=%d) died: exit %d: %s", r.gmp, r.wo.ExitCode, short(r.wo.Stderr, 1500))
 			continue
@@ -504,9 +542,13 @@ func (c *checkCtx) replay(path string) int {
 	var rf struct {
 		Violation simapi.Violation  `json:"violation"`
 		Config    *simapi.RunConfig `json:"config"`
+		Tier      string            `json:"tier"`
 	}
 	if err := json.Unmarshal(b, &rf); err != nil || rf.Config == nil {
 		die2("bad replay file %s: %v", path, err)
+	}
+	if rf.Tier == "quick" || rf.Tier == "thorough" {
+		c.Tier = rf.Tier // the corpus a run can visit depends on the tier it was generated in
 	}
 	if rf.Config.Kind == "frontend-repeat" {
 		if err := buildFrontends(c.Build); err != nil {
